@@ -1706,6 +1706,21 @@ func (n *TxNotifier) handleSpendDetailsAtTip(spendRequest SpendRequest,
 
 	// TODO(wilmer): cancel pending historical rescans if any?
 	spendSet := n.spendNotifications[spendRequest]
+
+	// If we already have details for this request, we don't want to add it
+	// again since we have already dispatched notifications for it. This
+	// can happen for script-based requests when several outputs pay to the
+	// same script. Tracking the request under a second spending height
+	// would leave a dangling entry in spendsByHeight once the first spend
+	// matures and the request is removed.
+	if spendSet.details != nil {
+		Log.Warnf("Ignoring script reuse for %v at height %d, already "+
+			"spent at height %d", spendRequest,
+			details.SpendingHeight, spendSet.details.SpendingHeight)
+
+		return
+	}
+
 	spendSet.rescanStatus = rescanComplete
 	spendSet.details = details
 
